@@ -236,7 +236,41 @@ Inductive stmt : Type :=
 
 Definition qmarks (n : nat) : string := join ", " (repeat "?" n).
 
+Definition is_null (d : dval) : bool := match d with DNull => true | _ => false end.
+Definition non_null (l : list dval) : list dval := List.filter (fun d => negb (is_null d)) l.
+
+(** makeBatchQuery's text for one group, as repaired (C10-fix-1): NULL values are written
+    [c IS NULL] and take no argument. *)
+Definition tuple_conj_text (cs : list string) (tup : list dval) : string :=
+  join " AND " (map (fun cv => if is_null (snd cv) then fst cv ++ " IS NULL" else fst cv ++ "=?") (combine cs tup)).
+
 Definition group_text (g : bgroup) : string :=
+  match fst g with
+  | [c] =>
+      let firsts := map (hd DNull) (snd g) in
+      let nn := non_null firsts in
+      (match nn with [] => "" | _ => c ++ " IN (" ++ qmarks (List.length nn) ++ ")" end)
+      ++ (if existsb is_null firsts
+          then (match nn with [] => "" | _ => " OR " end) ++ c ++ " IS NULL"
+          else "")
+  | cs => join " OR " (map (fun tup =>
+              match cs with
+              | _ :: _ :: _ => "(" ++ tuple_conj_text cs tup ++ ")"
+              | _ => tuple_conj_text cs tup
+              end) (snd g))
+  end.
+
+Definition group_args (g : bgroup) : list dval :=
+  match fst g with
+  | [c] => non_null (map (hd DNull) (snd g))
+  | cs => List.concat (map (fun tup => non_null (map snd (combine cs tup))) (snd g))
+  end.
+
+Definition batch_text (gs : list bgroup) : string := join " OR " (map group_text gs).
+Definition batch_args (gs : list bgroup) : list dval := List.concat (map group_args gs).
+
+(** The same before the repair: every value is an argument, [IN (?, ..)] / [c=?] only. *)
+Definition group_text_orig (g : bgroup) : string :=
   match fst g with
   | [c] => c ++ " IN (" ++ qmarks (List.length (snd g)) ++ ")"
   | cs => join " OR " (map (fun _ : list dval =>
@@ -245,9 +279,8 @@ Definition group_text (g : bgroup) : string :=
               | _ => join " AND " (map (fun c => c ++ "=?") cs)
               end) (snd g))
   end.
-
-Definition batch_text (gs : list bgroup) : string := join " OR " (map group_text gs).
-Definition batch_args (gs : list bgroup) : list dval := List.concat (map (fun g => List.concat (snd g)) gs).
+Definition batch_text_orig (gs : list bgroup) : string := join " OR " (map group_text_orig gs).
+Definition batch_args_orig (gs : list bgroup) : list dval := List.concat (map (fun g => List.concat (snd g)) gs).
 
 Definition wclause_text (w : wclause) : string :=
   match w with WSimple l => simple_where_text l | WBatch gs => batch_text gs end.
@@ -355,11 +388,29 @@ Definition dyn_enforced (h : handle) : option filter :=
   | None => None
   end.
 
+(** Does some comparison of the check panic (two []byte values)?  The panic unwinds through the DB
+    method before ShouldContinueOnError is consulted, so it rejects the call even when that callback
+    would have answered "continue".  (With two or more limit columns of which one panics and another
+    simply differs, Go's map iteration order decides which happens first; the model takes the panic.
+    With a rejecting callback both are rejections.) *)
+Definition filter_check_panics (f limit : filter) : bool :=
+  existsb (fun kv => match lookup (fst kv) f with
+                     | Some fv => go_eq_panics fv (snd kv)
+                     | None => false
+                     end) limit.
+
+Definition values_check_panics (cvs : list (string * dval)) (limit : filter) : bool :=
+  existsb (fun kv => match lookup (fst kv) cvs with
+                     | Some dv => go_eq_panics (go_of_dval dv) (snd kv)
+                     | None => false
+                     end) limit.
+
 Definition check_filter_limits (h : handle) (f : filter) : bool :=
   (match h_shard h with Some l => check_filter_against_limit f l | None => true end)
   && (match h_dyn h with
       | Some l => if h_dyn_cb h
-                  then check_filter_against_limit f l || h_dyn_continue h
+                  then check_filter_against_limit f l
+                       || (h_dyn_continue h && negb (filter_check_panics f l))
                   else true
       | None => true
       end).
@@ -368,7 +419,8 @@ Definition check_values_limits (h : handle) (cvs : list (string * dval)) : bool 
   (match h_shard h with Some l => check_column_values_against_limit cvs l | None => true end)
   && (match h_dyn h with
       | Some l => if h_dyn_cb h
-                  then check_column_values_against_limit cvs l || h_dyn_continue h
+                  then check_column_values_against_limit cvs l
+                       || (h_dyn_continue h && negb (values_check_panics cvs l))
                   else true
       | None => true
       end).
@@ -521,24 +573,41 @@ Definition sql_is (a b : dval) : tri :=   (* [a IS ?] with argument b; sqlgen on
 Definition drow := list (string * dval).     (* a stored row by column name *)
 Definition cell (r : drow) (c : string) : dval := match lookup c r with Some v => v | None => DNull end.
 
-Definition eval_simple (w : list (string * dval)) (r : drow) : tri :=
-  fold_right (fun cv acc =>
-                tri_and (match snd cv with
-                         | DNull => sql_is (cell r (fst cv)) DNull
-                         | v => sql_eq (cell r (fst cv)) v
-                         end) acc) TT w.
 
 Definition eval_in (c : string) (vals : list dval) (r : drow) : tri :=
   fold_right (fun v acc => tri_or (sql_eq (cell r c) v) acc) TF vals.
 
+Definition eval_atom (r : drow) (cv : string * dval) : tri :=
+  match snd cv with
+  | DNull => sql_is (cell r (fst cv)) DNull
+  | v => sql_eq (cell r (fst cv)) v
+  end.
+
+Definition eval_simple (w : list (string * dval)) (r : drow) : tri :=
+  fold_right (fun cv acc => tri_and (eval_atom r cv) acc) TT w.
+
 Definition eval_tuple (cs : list string) (tup : list dval) (r : drow) : tri :=
-  fold_right (fun cv acc => tri_and (sql_eq (cell r (fst cv)) (snd cv)) acc) TT (combine cs tup).
+  fold_right (fun cv acc => tri_and (eval_atom r cv) acc) TT (combine cs tup).
 
 Definition eval_group (g : bgroup) (r : drow) : tri :=
   match fst g with
-  | [c] => eval_in c (List.concat (snd g)) r
+  | [c] =>
+      let firsts := map (hd DNull) (snd g) in
+      tri_or (eval_in c (non_null firsts) r)
+             (if existsb is_null firsts then sql_is (cell r c) DNull else TF)
   | cs => fold_right (fun tup acc => tri_or (eval_tuple cs tup r) acc) TF (snd g)
   end.
+
+(** Before the repair: [c IN (.., NULL, ..)] and [c=NULL]. *)
+Definition eval_tuple_orig (cs : list string) (tup : list dval) (r : drow) : tri :=
+  fold_right (fun cv acc => tri_and (sql_eq (cell r (fst cv)) (snd cv)) acc) TT (combine cs tup).
+Definition eval_group_orig (g : bgroup) (r : drow) : tri :=
+  match fst g with
+  | [c] => eval_in c (List.concat (snd g)) r
+  | cs => fold_right (fun tup acc => tri_or (eval_tuple_orig cs tup r) acc) TF (snd g)
+  end.
+Definition eval_batch_orig (gs : list bgroup) (r : drow) : tri :=
+  fold_right (fun g acc => tri_or (eval_group_orig g r) acc) TF gs.
 
 Definition eval_batch (gs : list bgroup) (r : drow) : tri :=
   fold_right (fun g acc => tri_or (eval_group g r) acc) TF gs.
